@@ -3,6 +3,9 @@
 #ifndef LEMON_POTLIM
 #define LEMON_POTLIM (1 << 24)
 #endif
+#ifndef LEMON_FLOWMAX
+#define LEMON_FLOWMAX 4
+#endif
 namespace lemon {
 template <class G, class V = int, class C = V> struct NetworkSimplex {
   enum ProblemType { INFEASIBLE, OPTIMAL, UNBOUNDED };
@@ -14,9 +17,19 @@ template <class G, class V = int, class C = V> struct NetworkSimplex {
   ProblemType run() {
     // contract: the returned potentials are a dual-feasible solution (reduced cost of every arc >= 0)
     for (int i = 0; i < g_.nn_; ++i) pot_[i] = __verif_nondet_int(-LEMON_POTLIM, LEMON_POTLIM);
+    // ... and an optimal one: there is a primal flow (conservation w.r.t. the supplies) that is complementary to it.
+    // This characterises exactly the dual optima of a feasible bounded min-cost flow problem.
+    int flow[LEMON_ACAP];
     for (int a = 0; a < g_.na_; ++a) {
       long long rc = (long long)cost_->v_[a] + pot_[g_.src_[a]] - pot_[g_.dst_[a]];
       __verif_assume(rc >= 0);
+      flow[a] = __verif_nondet_int(0, LEMON_FLOWMAX);
+      __verif_assume(flow[a] == 0 || rc == 0);
+    }
+    for (int v = 0; v < g_.nn_; ++v) {
+      long long bal = 0;
+      for (int a = 0; a < g_.na_; ++a) { if (g_.src_[a] == v) bal += flow[a]; if (g_.dst_[a] == v) bal -= flow[a]; }
+      __verif_assume(bal == (sup_ ? sup_->v_[v] : 0));
     }
     return OPTIMAL;
   }
